@@ -15,6 +15,16 @@ holds an integer (`ival`: unsigned for policy zero, two's complement for `SInt`,
 policy one), an assignment stores the literal's / the other variable's integer, a skipped branch changes nothing. The static width
 is a frontend matter only: the design's final bits are compared with the interpreter's integer through `ival`.
 
+**Enable scopes, registers, memory writes.** `ENIF (c) { … }` constructs an `EnableScope` (frontend/EnableScope.cpp): its
+accumulated condition is `c ∧ parent.m_fullEnableCondition`; every `ConditionalScope` owns one, too, set up with the conditional
+scope's full condition (`m_enScope.setup(m_fullCondition)`, ConditionalScope.cpp:144). `reg(e)` connects the register's ENABLE input
+and `mem[a] = d` the write port's wrEnable input to `EnableScope::get()->getFullEnableCondition()` (Reg.cpp:51-53, Memory.h:90-93);
+assignments are *not* affected by enable scopes. The model keeps the enable-scope stack (`XState.ens`) next to the conditional-scope
+stack and records, per `reg` / `memW` statement, the port that drives the enable input (`XState.obs`; a constant one if no enable scope
+is open). Sequential semantics (`runX`): a register / memory word is updated in a clock cycle iff every enclosing `IF` / `ELSE…` branch
+is taken and every enclosing `ENIF` condition holds; the interpreter records that Boolean per statement (false for statements inside
+skipped blocks). What the register stores over time is property C04's business, not modelled here.
+
 Outside this model (rejected by `buildX`): a narrower value whose policy differs from the variable's (its meaning depends on the
 static width), mixed kinds in one comparison or assignment, `<` on policy-one variables, `UInt` literals < 1.
 
@@ -94,47 +104,78 @@ def stepIrun (env : List Val) (ienv : List IVal) : IStmt → Option (List Val ×
         let r ← cmpSpec o kx vx vy
         some (env ++ [r], ienv)
       else none
+  | .reg _ | .memW _ _ => none     -- handled by `runX`
 
-@[inline] def dropLocalsX (n m : Nat) (r : Option (List Val × List IVal)) : Option (List Val × List IVal) :=
-  r.map fun (e, i) => (e.take n, i.take m)
+/-- interpreter state: ordinary variables, integer variables, and the "update happens" flag of every `reg` / `memW` statement met so far
+    (in program text order, skipped blocks included) -/
+structure RS where
+  env : List Val
+  ienv : List IVal
+  obs : List Bool
+  deriving Repr, Inhabited
 
-/-- `run` extended by the integer-variable statements (same chain bookkeeping) -/
-def runX : Prog → List Val → List IVal → Option Bool → Option (List Val × List IVal)
-  | .done, env, ienv, _ => some (env, ienv)
-  | .decl _ init k, env, ienv, _ => do
-      let v ← evalE env init
-      runX k (env ++ [v]) ienv none
-  | .declDefault _ d k, env, ienv, _ => runX k (env ++ [d]) ienv none
-  | .assign x p e k, env, ienv, _ => do
-      let v ← evalE env e
-      let cur ← env[x]?
-      let nv ← writePath env cur p v
-      runX k (env.set x nv) ienv none
-  | .ifS c body k, env, ienv, _ => do
-      let vc ← evalE env c
-      let (env', ienv') ← if truthy vc then dropLocalsX env.length ienv.length (runX body env ienv none) else some (env, ienv)
-      runX k env' ienv' (some (truthy vc))
-  | .elseS body k, env, ienv, ch => do
+mutual
+/-- number of `reg` / `memW` statements in a program text -/
+def countObs : Prog → Nat
+  | .done => 0
+  | .decl _ _ k | .declDefault _ _ k | .assign _ _ _ k => countObs k
+  | .ifS _ b k | .elseS b k | .elseifS _ b k | .elseIf2 _ b k | .enif _ b k => countObs b + countObs k
+  | .istmt s k => (match s with | .reg _ | .memW _ _ => 1 | _ => 0) + countObs k
+end
+
+/-- a block that is not executed: nothing changes, its registers / memory writes do not update -/
+def skipBlock (body : Prog) (s : RS) : RS := { s with obs := s.obs ++ List.replicate (countObs body) false }
+
+/-- end of an executed block: its local variables die -/
+def endBlock (outer : RS) (r : Option RS) : Option RS :=
+  r.map fun s => { s with env := s.env.take outer.env.length, ienv := s.ienv.take outer.ienv.length }
+
+/-- `run` extended by integer variables, enable scopes, registers and memory writes. `en` = conjunction of the conditions of the
+    enclosing `ENIF` scopes (the enclosing `IF` conditions are true whenever a statement is executed at all). -/
+def runX : Prog → RS → Bool → Option Bool → Option RS
+  | .done, s, _, _ => some s
+  | .decl _ init k, s, en, _ => do
+      let v ← evalE s.env init
+      runX k { s with env := s.env ++ [v] } en none
+  | .declDefault _ d k, s, en, _ => runX k { s with env := s.env ++ [d] } en none
+  | .assign x p e k, s, en, _ => do
+      let v ← evalE s.env e
+      let cur ← s.env[x]?
+      let nv ← writePath s.env cur p v
+      runX k { s with env := s.env.set x nv } en none
+  | .ifS c body k, s, en, _ => do
+      let vc ← evalE s.env c
+      let s' ← if truthy vc then endBlock s (runX body s en none) else some (skipBlock body s)
+      runX k s' en (some (truthy vc))
+  | .elseS body k, s, en, ch => do
       let taken ← ch
-      let (env', ienv') ← if taken then some (env, ienv) else dropLocalsX env.length ienv.length (runX body env ienv none)
-      runX k env' ienv' none
-  | .elseifS c body k, env, ienv, ch => do
+      let s' ← if taken then some (skipBlock body s) else endBlock s (runX body s en none)
+      runX k s' en none
+  | .elseifS c body k, s, en, ch => do
       let taken ← ch
-      if taken then runX k env ienv (some true)
+      if taken then runX k (skipBlock body s) en (some true)
       else do
-        let vc ← evalE env c
-        let (env', ienv') ← if truthy vc then dropLocalsX env.length ienv.length (runX body env ienv none) else some (env, ienv)
-        runX k env' ienv' (some (truthy vc))
-  | .elseIf2 c body k, env, ienv, ch => do
+        let vc ← evalE s.env c
+        let s' ← if truthy vc then endBlock s (runX body s en none) else some (skipBlock body s)
+        runX k s' en (some (truthy vc))
+  | .elseIf2 c body k, s, en, ch => do
       let taken ← ch
-      if taken then runX k env ienv (some true)
+      if taken then runX k (skipBlock body s) en (some true)
       else do
-        let vc ← evalE env c
-        let (env', ienv') ← if truthy vc then dropLocalsX env.length ienv.length (runX body env ienv none) else some (env, ienv)
-        runX k env' ienv' (some (truthy vc))
-  | .istmt s k, env, ienv, _ => do
-      let (env', ienv') ← stepIrun env ienv s
-      runX k env' ienv' none
+        let vc ← evalE s.env c
+        let s' ← if truthy vc then endBlock s (runX body s en none) else some (skipBlock body s)
+        runX k s' en (some (truthy vc))
+  | .enif c body k, s, en, _ => do
+      -- the block itself is executed (assignments are not gated by enable scopes); clocked updates inside need `c`, too
+      let vc ← evalE s.env c
+      let s' ← endBlock s (runX body s (en && truthy vc) none)
+      runX k s' en none
+  | .istmt st k, s, en, _ =>
+      match st with
+      | .reg _ | .memW _ _ => runX k { s with obs := s.obs ++ [en] } en none
+      | _ => do
+          let (env', ienv') ← stepIrun s.env s.ienv st
+          runX k { s with env := env', ienv := ienv' } en none
 
 /-! ## the frontend -/
 
@@ -147,10 +188,44 @@ structure ISig where
   initScope : Nat
   deriving Repr, Inhabited
 
+/-- an `EnableScope` object (its own or the one a `ConditionalScope` carries) -/
+structure EnS where
+  cond : Nat      -- m_enableCondition
+  full : Nat      -- m_fullEnableCondition
+  deriving Repr, Inhabited
+
 structure XState where
   core : BState
   ivars : List ISig
+  /-- enable-scope stack, innermost first (`EnableScope::m_currentScope` and the `m_parentScope` chain) -/
+  ens : List EnS := []
+  /-- per `reg` / `memW` statement so far: the port driving the ENABLE / wrEnable input -/
+  obs : List Nat := []
   deriving Repr, Inhabited
+
+/-- `EnableScope::setEnable(cond, checkParent = true)` (EnableScope.cpp:52-66): `full = cond ∧ parent.full` -/
+def pushEn (ns : Nodes) (ens : List EnS) (cond : Nat) : Nodes × List EnS :=
+  match ens with
+  | [] => (ns, [{ cond := cond, full := cond }])
+  | p :: _ =>
+      let (ns, a) := mkNode ns (.and cond p.full)
+      (ns, { cond := cond, full := a } :: ens)
+
+/-- the `EnableScope` member of the `ConditionalScope` that was just constructed: `m_enScope.setup(m_fullCondition)` -/
+def pushEnTop (X : XState) : XState :=
+  match X.core.scopes with
+  | [] => X
+  | sc :: _ =>
+      let (ns, ens) := pushEn X.core.nodes X.ens sc.full
+      { X with core := { X.core with nodes := ns }, ens := ens }
+
+/-- the enable a clocked node created now gets (`EnableScope::get()`; none: always enabled, modelled as a constant one) -/
+def curEnable (X : XState) : XState × Nat :=
+  match X.ens with
+  | e :: _ => (X, e.full)
+  | [] =>
+      let (ns, c) := mkNode X.core.nodes (.const [true])
+      ({ X with core := { X.core with nodes := ns } }, c)
 
 /-- `BaseBitVector::assign(SignalReadPort in)` (BitVector.cpp:387-455) on a width-less vector: `inn` has width `wi`, policy `pi` -/
 def assignInt (X : XState) (x : Nat) (inn wi : Nat) (pi : Pol) : Option XState := do
@@ -169,8 +244,8 @@ def assignInt (X : XState) (x : Nat) (inn wi : Nat) (pi : Pol) : Option XState :
             mkNode ns (.mux sc.full [old, inn])
           else (ns, inn)
       | [] => (ns, inn)
-    some { core := { B with nodes := ns },
-           ivars := X.ivars.set x { s with width := max wi s.width, driver := inn } }
+    some { X with core := { B with nodes := ns },
+                  ivars := X.ivars.set x { s with width := max wi s.width, driver := inn } }
 
 /-- a new vector constructed from a port: `createNode(in.width(), in.expansionPolicy)`, unconditional connect -/
 def declInt (X : XState) (k : IKind) (port w : Nat) : XState :=
@@ -220,10 +295,27 @@ def stepI (X : XState) : IStmt → Option XState
       let (ns, r) := mkNode ns (.op2 o' a b)
       let B := X.core
       some { X with core := { B with nodes := ns, sigs := B.sigs ++ [{ ty := .bit, driver := r, initScope := curScopeId B }] } }
+  | .reg e => do
+      -- `reg(e)`: Node_Register, ENABLE ← EnableScope::get()->getFullEnableCondition()
+      let (ns, _, _) ← buildExpr X.core.sigs X.core.nodes e
+      let (X, en) := curEnable { X with core := { X.core with nodes := ns } }
+      some { X with obs := X.obs ++ [en] }
+  | .memW addr d => do
+      -- `Memory<UInt> mem(2^aw, w_b); mem[addr] = d;`: Node_MemPort, wrEnable ← full enable
+      let (ns, _, ta) ← buildExpr X.core.sigs X.core.nodes addr
+      let (ns, _, td) ← buildExpr X.core.sigs ns d
+      match ta, td with
+      | .uint aw, .uint w =>
+          if 1 ≤ aw ∧ aw ≤ 4 ∧ 1 ≤ w then
+            let (X, en) := curEnable { X with core := { X.core with nodes := ns } }
+            some { X with obs := X.obs ++ [en] }
+          else none
+      | _, _ => none
 
+/-- end of a conditional scope's block: `~ConditionalScope` (with its `EnableScope` member) -/
 def popX (X : XState) (nsigs nivars : Nat) : Option XState := do
   let B ← popScope X.core nsigs
-  some { core := B, ivars := X.ivars.take nivars }
+  some { X with core := B, ivars := X.ivars.take nivars, ens := X.ens.drop 1 }
 
 /-- `build` extended by the integer-variable statements -/
 def buildX : Prog → XState → Option XState
@@ -239,31 +331,46 @@ def buildX : Prog → XState → Option XState
       buildX k { X with core := B1 }
   | .ifS c body k, X => do
       let B1 ← openIf X.core c
-      let X2 ← buildX body { X with core := B1 }
+      let X2 ← buildX body (pushEnTop { X with core := B1 })
       let X3 ← popX X2 X.core.sigs.length X.ivars.length
       buildX k X3
   | .elseS body k, X => do
       let B1 ← openElse X.core
-      let X2 ← buildX body { X with core := B1 }
+      let X2 ← buildX body (pushEnTop { X with core := B1 })
       let X3 ← popX X2 X.core.sigs.length X.ivars.length
       buildX k X3
   | .elseifS c body k, X => do
       let B1 ← openElseIf X.core c
-      let X2 ← buildX body { X with core := B1 }
+      let X2 ← buildX body (pushEnTop { X with core := B1 })
       let X3 ← popX X2 X.core.sigs.length X.ivars.length
       buildX k X3
   | .elseIf2 c body k, X => do
       let l ← X.core.lastCond
-      let B2 ← openIf (pushElse X.core l) c
-      let X3 ← buildX body { X with core := B2 }
+      let X1 := pushEnTop { X with core := pushElse X.core l }
+      let B2 ← openIf X1.core c
+      let X3 ← buildX body (pushEnTop { X1 with core := B2 })
       let X4 ← popX X3 X.core.sigs.length X.ivars.length
       let X5 ← popX X4 X.core.sigs.length X.ivars.length
       buildX k X5
   | .istmt s k, X => do
       let X1 ← stepI X s
       buildX k X1
+  | .enif c body k, X => do
+      -- `ENIF (c) body` = `if (gtry::EnableScope ___enableScope{c}) {} else body`: no conditional scope, no multiplexers
+      let (ns, ci, t) ← buildExpr X.core.sigs X.core.nodes c
+      if t = .bit then do
+        let (ns, ens) := pushEn ns X.ens ci
+        let X2 ← buildX body { X with core := { X.core with nodes := ns }, ens := ens }
+        buildX k { X2 with core := { X2.core with sigs := X2.core.sigs.take X.core.sigs.length }, ivars := X2.ivars.take X.ivars.length,
+                           ens := X2.ens.drop 1 }
+      else none
 
 def initX (ins : List Ty) : XState := { core := initState ins, ivars := [] }
+
+/-- value of the enable inputs of all `reg` / `memW` statements -/
+def outputsObs (ρ : List Val) (X : XState) : List Bool :=
+  let vs := evalNodes ρ X.core.nodes
+  X.obs.map fun p => truthy (vs.getD p [])
 
 /-- final bits of every integer variable of the built design -/
 def outputsI (ρ : List Val) (X : XState) : List (IKind × Val) :=
